@@ -12,6 +12,8 @@ def cfg_switch(w, label, rel, old, new_kani):
 
 
 def setup(w):
+    w.drop_downstream_dev_deps("yash-env")
+    w.disable_unit_tests_under_kani("yash-env")
     w.inject("yash-env/src/lib.rs", "shim_btreemap.rs", modname="verif_bt")
     st, tr = "yash-env/src/trap/state.rs", "yash-env/src/trap.rs"
     T1b = "T1b BTreeMap->sorted association list"
